@@ -77,6 +77,7 @@ pub struct State {
     pub horizon_ns: i64,
     pub events: Vec<String>,
     pub log_events: bool,
+    epoch: usize,
 }
 
 pub struct Sched {
@@ -117,6 +118,7 @@ impl State {
             horizon_ns: i64::MAX,
             events: Vec::new(),
             log_events: false,
+            epoch: 0,
         }
     }
 
@@ -194,6 +196,9 @@ impl State {
         let prev_enabled = en[0] == me && self.strongly_enabled(me);
         if c >= en.len() - unfair {
             self.unfair_used += 1;
+        }
+        if self.log_events {
+            self.events.push(format!("  step {i}: enabled {:?} (last {unfair} unfair) -> {}", en, en[c]));
         }
         self.trace.push(Step { enabled: en.clone(), unfair, chosen: c, prev: me, prev_enabled });
         self.current = en[c];
@@ -273,26 +278,52 @@ fn opportunity(label: &str, explicit: bool) -> FaultAction {
 
 // ---- hook functions -------------------------------------------------------------------------
 
+/// Channel identifiers carry the number of the execution that created them: an operation on a channel
+/// of an earlier execution (a straggler thread still dropping its channel ends) must never touch the
+/// bookkeeping of the current one.
+const EPOCH_SHIFT: u32 = 16;
+static EPOCH: std::sync::atomic::AtomicUsize = std::sync::atomic::AtomicUsize::new(1);
+
+fn chan_index(s: &State, id: usize) -> Option<usize> {
+    let idx = id & ((1 << EPOCH_SHIFT) - 1);
+    if id >> EPOCH_SHIFT == s.epoch && idx < s.chans.len() {
+        Some(idx)
+    } else {
+        None
+    }
+}
+
 pub fn h_chan_new() -> usize {
     let mut s = S.m.lock().unwrap();
     s.chans.push(Chan { len: 0, senders: 1 });
-    s.chans.len() - 1
+    (s.epoch << EPOCH_SHIFT) | (s.chans.len() - 1)
 }
 pub fn h_sender_clone(id: usize) {
     let mut s = S.m.lock().unwrap();
-    if id < s.chans.len() {
-        s.chans[id].senders += 1;
+    if let Some(i) = chan_index(&s, id) {
+        s.chans[i].senders += 1;
     }
 }
 pub fn h_sender_drop(id: usize) {
     let mut s = S.m.lock().unwrap();
-    if id < s.chans.len() && s.chans[id].senders > 0 {
-        s.chans[id].senders -= 1;
+    if let Some(i) = chan_index(&s, id) {
+        if s.chans[i].senders > 0 {
+            s.chans[i].senders -= 1;
+        }
     }
 }
 pub fn h_receiver_drop(_id: usize) {}
 
+fn live_chan(id: usize) -> Option<usize> {
+    let s = S.m.lock().unwrap();
+    chan_index(&s, id)
+}
+
 pub fn h_send(id: usize) -> Ctl {
+    let id = match live_chan(id) {
+        Some(i) => i,
+        None => return drained(Ctl::Fail),
+    };
     if point(Op::Send(id)).is_err() {
         return drained(Ctl::Fail);
     }
@@ -302,13 +333,19 @@ pub fn h_send(id: usize) -> Ctl {
 pub fn h_sent(id: usize, ok: bool) {
     {
         let mut s = S.m.lock().unwrap();
-        if ok && id < s.chans.len() {
-            s.chans[id].len += 1;
+        if let Some(i) = chan_index(&s, id) {
+            if ok {
+                s.chans[i].len += 1;
+            }
         }
     }
     opportunity("after send", false);
 }
 pub fn h_recv(id: usize, timeout: Option<Duration>) -> RecvCtl {
+    let id = match live_chan(id) {
+        Some(i) => i,
+        None => return drained(RecvCtl::Disconnected),
+    };
     let op = match timeout {
         None => Op::Recv(id),
         Some(d) => Op::RecvTimeout(id, d.as_nanos() as u64),
@@ -354,13 +391,10 @@ pub fn h_thread_begin(id: usize) {
     while s.current != id && !s.drain {
         s = S.cv.wait(s).unwrap();
     }
-    if s.drain {
-        // the thread function never runs: account for the thread here (thread_end will not be called)
-        s.threads[id] = St::Finished;
-        S.cv.notify_all();
-        drop(s);
-        std::panic::resume_unwind(Box::new(DrainSentinel));
-    }
+    // In drain mode the thread function is allowed to start: its first scheduling point unwinds it
+    // from inside the stand-in's catch_unwind, so that everything it owns (its Context with the channel
+    // ends) is dropped before thread_end marks it finished. (Unwinding from here would drop them after
+    // the thread had been accounted for, racing with the next execution.)
     s.threads[id] = St::Running;
 }
 pub fn h_thread_end(id: usize, panicked: bool) {
@@ -418,6 +452,7 @@ pub struct Setup {
 pub fn reset(setup: Setup) {
     let mut s = S.m.lock().unwrap();
     *s = State::new();
+    s.epoch = EPOCH.fetch_add(1, std::sync::atomic::Ordering::SeqCst) & 0xffff_ffff;
     s.prefix = setup.prefix;
     s.fault = setup.fault;
     s.unfair_budget = setup.unfair_budget;
